@@ -311,6 +311,9 @@ func refInner(f *Flow, ip ipView, at int64) Outcome {
 			if !isTE && f.V.Proto != "udp" {
 				// destination unreachable is only a stated reply form for UDP probes
 				o := refQuote(f, ip, body, at, eqType).demote()
+				// whether such a sender is reported as a hop is not decided; that it is not the DESTINATION is (C04 lists the
+				// forms that prove arrival per protocol: an unreachable error is one for UDP only)
+				o.Dest = false
 				o.Why += " (dest-unreachable for non-udp run)"
 				return o
 			}
